@@ -313,13 +313,13 @@ func h2h3(w *World, r *Report, name string) {
 				for _, a := range args {
 					as = append(as, w.Canon(a))
 				}
-				return "CHK|" + lssKind(rcv) + "|" + strings.Join(as, ", ")
+				return "CHK\x01" + lssKind(rcv) + "\x01" + strings.Join(as, ", ")
 			case w.callIs(cc, fref{"github.com/tendermint/tendermint/crypto", "PrivKey", "Sign"}):
 				_, args := callRecvArgs(cc)
 				if len(args) == 1 {
-					return "SIGN|" + w.Canon(args[0]) + "|" + w.canonCall(cc, 0)
+					return "SIGN\x01" + w.Canon(args[0]) + "\x01" + w.canonCall(cc, 0)
 				}
-				return "SIGN|?"
+				return "SIGN\x01?"
 			default:
 				cal := cc.StaticCallee()
 				if cal == nil || !w.InModule(cal) {
@@ -348,7 +348,7 @@ func h2h3(w *World, r *Report, name string) {
 						loc = lssKind(base)
 					}
 				}
-				return "REC|" + get("Height") + "|" + get("Round") + "|" + get("Step") + "|" + get("SignBytes") + "|" + get("Signature") + "|" + loc
+				return "REC\x01" + get("Height") + "\x01" + get("Round") + "\x01" + get("Step") + "\x01" + get("SignBytes") + "\x01" + get("Signature") + "\x01" + loc
 			}
 		case *ssa.Store:
 			fa, ok := x.Addr.(*ssa.FieldAddr)
@@ -358,9 +358,9 @@ func h2h3(w *World, r *Report, name string) {
 			switch fieldName(fa.X.Type(), fa.Field) {
 			case "Signature":
 				if storedField(x.Val, "Signature") {
-					return "OUT|stored"
+					return "OUT\x01stored"
 				}
-				return "OUT|" + w.canonResolved(x.Val)
+				return "OUT\x01" + w.canonResolved(x.Val)
 			case "Timestamp":
 				return "TS"
 			}
@@ -401,7 +401,7 @@ func h2h3(w *World, r *Report, name string) {
 	pe, c1 := run(chkErr)
 	guarded := c1 && len(pe) > 0
 	for _, p := range pe {
-		if isOK(p) || len(has(p, "SIGN|")) > 0 || len(has(p, "OUT|")) > 0 {
+		if isOK(p) || len(has(p, "SIGN\x01")) > 0 || len(has(p, "OUT\x01")) > 0 {
 			guarded = false
 		}
 	}
@@ -415,7 +415,7 @@ func h2h3(w *World, r *Report, name string) {
 		if os.Getenv("RIGOCHECK_DEBUG") != "" {
 			fmt.Println("DBG", name, p.Term, p.Events)
 		}
-		chk, sign, rec, out := has(p, "CHK|"), has(p, "SIGN|"), has(p, "REC|"), has(p, "OUT|")
+		chk, sign, rec, out := has(p, "CHK\x01"), has(p, "SIGN\x01"), has(p, "REC\x01"), has(p, "OUT\x01")
 		if len(out) > 0 && len(rec) == 0 {
 			orderOK = false // released without being recorded
 		}
@@ -427,14 +427,14 @@ func h2h3(w *World, r *Report, name string) {
 			lssOK, sbOK = false, false
 			continue
 		}
-		cf := strings.SplitN(chk[0], "|", 3)
+		cf := strings.SplitN(chk[0], "\x01", 3)
 		if cf[1] != "pv" && cf[1] != "copy" {
 			lssOK = false
 		}
 		if cf[2] != "p1.Height, p1.Round, "+wantStep {
 			hrOK = false
 		}
-		sf := strings.SplitN(sign[0], "|", 3)
+		sf := strings.SplitN(sign[0], "\x01", 3)
 		if sf[1] != wantSB {
 			sbOK = false
 		}
@@ -442,14 +442,14 @@ func h2h3(w *World, r *Report, name string) {
 			noSuccessWithoutSave = false
 			continue
 		}
-		rf := strings.Split(rec[0], "|")
+		rf := strings.Split(rec[0], "\x01")
 		if len(rf) != 7 || rf[1] != "p1.Height" || rf[2] != "p1.Round" || rf[3] != wantStep || rf[4] != sf[1] || rf[5] != sf[2]+"#0" {
 			argsOK = false
 		}
 		if len(rf) == 7 && rf[6] != "pv" {
 			locOK = false
 		}
-		if len(out) != 1 || out[0] != "OUT|"+sf[2]+"#0" {
+		if len(out) != 1 || out[0] != "OUT\x01"+sf[2]+"#0" {
 			freshOut = false
 		}
 		// order: CHK < SIGN < REC < OUT
@@ -480,11 +480,11 @@ func h2h3(w *World, r *Report, name string) {
 	reuseVal := c3
 	nReuse := 0
 	for _, p := range ps {
-		if len(has(p, "SIGN|")) > 0 {
+		if len(has(p, "SIGN\x01")) > 0 {
 			noSign = false
 		}
-		for _, o := range has(p, "OUT|") {
-			if o != "OUT|stored" {
+		for _, o := range has(p, "OUT\x01") {
+			if o != "OUT\x01stored" {
 				reuseVal = false
 			} else if isOK(p) {
 				nReuse++
@@ -503,7 +503,7 @@ func h2h3(w *World, r *Report, name string) {
 		pc, c4 := run(chkOK, same, differ, notTS)
 		cond := c4 && len(pc) > 0
 		for _, p := range pc {
-			if isOK(p) || len(has(p, "OUT|")) > 0 {
+			if isOK(p) || len(has(p, "OUT\x01")) > 0 {
 				cond = false
 			}
 		}
